@@ -198,3 +198,44 @@ extern "C" void h_grid()
   CHECK(lval(o, r) == (OP == 3 ? amo : c2 == 1), "the extension gives the returned literal the value of the cardinality formula (grid encoding)");
   WITNESS_POINT();
 }
+
+// ---------------------------------------------------------------------------------------------------------------
+// two constructs of the same kind sharing an argument (expression-cache interference): A = op(x, y), B = op(z, y) with either
+// argument order for each; both returned literals must have the value of THEIR OWN formula in every model, and A must be
+// returned again when requested a second time.
+//   PARAM(0) = OP, PARAM(1) = order bits (bit0: A reversed, bit1: B reversed), PARAM(2..5) = signs of x, y (in A), z, y (in B),
+//   PARAM(6) = which variable (smallest / middle / largest index) is the shared y
+extern "C" void h_pair()
+{
+  OP = PARAM(0);
+  const int ord = PARAM(1);
+  sat_core &s = *new sat_core();
+  const var v3[3] = {s.new_var(), s.new_var(), s.new_var()};
+  const int sh = PARAM(6);                       // which of the three variables (by index order) is the shared one
+  const var y = v3[sh], x = v3[(sh + 1) % 3], z = v3[(sh + 2) % 3];
+  lit A[2] = {lit(x, PARAM(2) != 0), lit(y, PARAM(3) != 0)};
+  lit B[2] = {lit(z, PARAM(4) != 0), lit(y, PARAM(5) != 0)};
+  const lit ra = build(s, A, 2, (ord & 1) != 0);
+  const lit rb = build(s, B, 2, (ord & 2) != 0);
+  const lit ra2 = build(s, A, 2, (ord & 1) != 0);
+  CHECK(s.assigns.size() <= MAXV, "harness bound on auxiliary variables");
+  bool a[MAXV];
+  for (int i = 0; i < MAXV; i++) a[i] = nondet_bool();
+  if (is_model(s, a))
+  {
+    const bool fa = formula(a, A, 2, true), fb = formula(a, B, 2, true);
+    if (OP <= 2)
+    {
+      CHECK(lval(a, ra) == fa, "first construct equivalent to its formula in every model");
+      CHECK(lval(a, rb) == fb, "second construct (sharing an argument with the first) equivalent to ITS formula in every model");
+      CHECK(lval(a, ra2) == fa, "first construct requested again is still equivalent to its formula");
+    }
+    else
+    {
+      CHECK(!lval(a, ra) || fa, "first cardinality literal forces its constraint");
+      CHECK(!lval(a, rb) || fb, "second cardinality literal (sharing an argument) forces ITS constraint");
+      CHECK(!lval(a, ra2) || fa, "first cardinality literal requested again forces its constraint");
+    }
+  }
+  WITNESS_POINT();
+}
